@@ -1,5 +1,6 @@
 """Generate lean/MlVerif/Gen/C02.lean and Gen/C03.lean from the working tree (see skeleton.py)."""
 import ast
+import os
 
 from extract import skeleton as sk
 from extract.pyexpr import HEADER
@@ -366,6 +367,75 @@ def c03_observers(uni, classes):
     return out
 
 
+def c03_fit_writers(uni, classes):
+    """(class, method, ownership skeleton, names holding the fitted state) for every `fit*` method: a fit builds
+    NEW state (rebinds the fitted attributes); it never writes in place into what an earlier fit stored, so objects that
+    still hold the earlier arrays (a shallow copy, a reference kept by the caller) are not changed by a refit."""
+    out = []
+    for c in classes:
+        state = set()
+        for r in c["methods"]:
+            for a in sk.atoms(r["prog"]):
+                if a[0] in ("bindAlias", "bindFresh") and a[1].startswith("self.") and a[1][5:] not in c["params"]:
+                    state.add(a[1])
+                elif a[0] == "wattr":
+                    state.add("self." + a[1])
+        for r in c["methods"]:
+            m = r["method"]
+            if m.startswith(("fit", "partial_fit")):     # its public steps are inlined in its skeleton
+                out.append({"class": c["class"], "method": m, "prog": sk.simplify(r["prog"], OWN_ATOMS),
+                            "state": sorted(state)})
+    return out
+
+
+SCOPE_DIRS = ("mlmodel", "sklapi", "timeseries", "mltree", "metrics", "helpers", "plotting")
+
+
+def process_global_state(repo):
+    """Census of what can carry state from one call to another OUTSIDE the estimator instance: mutable default arguments,
+    memoising decorators, mutable class attributes, module-level mutable objects and `global` statements, in the
+    packages the properties speak about.  Constant lookup tables appear in it too: the list is compared with the literal
+    the models were written against, so a NEW entry (a cache, a registry, a default `known={}`) is noticed."""
+    out = []
+
+    def mutable(d):
+        return isinstance(d, (ast.Dict, ast.List, ast.Set, ast.ListComp, ast.DictComp, ast.SetComp, ast.Call))
+    for pkg in SCOPE_DIRS:
+        d = os.path.join(repo, "mlinsights", pkg)
+        if not os.path.isdir(d):
+            continue
+        for fn in sorted(os.listdir(d)):
+            if not fn.endswith(".py"):
+                continue
+            rel = "%s/%s" % (pkg, fn)
+            try:
+                tree = ast.parse(open(os.path.join(d, fn), encoding="utf-8").read())
+            except SyntaxError:
+                out.append("%s: cannot be parsed" % rel)
+                continue
+            for n in ast.walk(tree):
+                if isinstance(n, (ast.FunctionDef, ast.AsyncFunctionDef)):
+                    a = n.args
+                    pos = a.posonlyargs + a.args
+                    for arg, dv in list(zip(pos[len(pos) - len(a.defaults):], a.defaults)) + list(zip(a.kwonlyargs, a.kw_defaults)):
+                        if dv is not None and mutable(dv):
+                            out.append("%s:%s: mutable default %s=%s" % (rel, n.name, arg.arg, ast.unparse(dv)[:40]))
+                    for dec in n.decorator_list:
+                        sdec = ast.unparse(dec)
+                        if "cache" in sdec.lower() or "memo" in sdec.lower():
+                            out.append("%s:%s: decorator %s" % (rel, n.name, sdec[:40]))
+                elif isinstance(n, ast.ClassDef):
+                    for st in n.body:
+                        if isinstance(st, ast.Assign) and mutable(st.value):
+                            out.append("%s:%s: class attribute %s" % (rel, n.name, ast.unparse(st.targets[0])))
+                elif isinstance(n, (ast.Global, ast.Nonlocal)):
+                    out.append("%s: %s %s" % (rel, type(n).__name__.lower(), ",".join(n.names)))
+            for st in tree.body:
+                if isinstance(st, ast.Assign) and mutable(st.value) and ast.unparse(st.targets[0]) != "__all__":
+                    out.append("%s: module-level %s" % (rel, ast.unparse(st.targets[0])))
+    return [x.replace('"', "'").replace("\\", "/") for x in out]
+
+
 def gen_c03(repo):
     uni, classes, cases = c03_cases(repo)
     L = [HEADER, "import MlVerif.Model.Lifecycle", "namespace MlVerif.Gen.C03", "open MlVerif.Flow MlVerif.Lifecycle", "",
@@ -416,6 +486,28 @@ def gen_c03(repo):
     L.append("")
     L.append("def observers : List Observer := [")
     L.append("  " + ",\n  ".join(onames))
+    L.append("]")
+    L.append("")
+    wnames = []
+    for n, ob in enumerate(c03_fit_writers(uni, classes)):
+        loc, par, att = sk.Numbering(), sk.Numbering(), sk.Numbering()
+        op, relevant = slice_ownership(ob["prog"])
+        txt = sk.render(op, loc, par, att)
+        st = [loc(b) for b in ob["state"] if b in relevant]
+        ident = "w%d_%s_%s" % (n, ob["class"], ob["method"])
+        wnames.append(ident)
+        L.append("-- %s.%s; names %s" % (ob["class"], ob["method"], {k: v for k, v in list(loc.tab.items())[:30]}))
+        L.append("def %s : Observer := { cls := %s, name := %s, ownProg := %s, state := [%s] }" % (
+            ident, lean_str(ob["class"]), lean_str(ob["method"]), txt, ", ".join(map(str, st))))
+    L.append("")
+    L.append("/-- `fit` and its public steps, with the names bound to the fitted attributes AT ENTRY (what an earlier fit stored) -/")
+    L.append("def fitWriters : List Observer := [")
+    L.append("  " + ",\n  ".join(wnames))
+    L.append("]")
+    L.append("")
+    L.append("/-- what can carry state between calls outside the instance (see lifecycle_gen.process_global_state) -/")
+    L.append("def processGlobalState : List String := [")
+    L.append("  " + ",\n  ".join(lean_str(x) for x in process_global_state(repo)))
     L.append("]")
     L.append("")
     L.append("end MlVerif.Gen.C03")
